@@ -112,9 +112,13 @@ CHECKS = {
        '<= 2 stored users whose names, passwords and admin role are symbolic and presented authcid/secret/authzid symbolic: the session '
        'is set iff some stored user matches authcid and secret and (authzid = authcid or that user is admin) and the authzid user exists, '
        'its owner is authzid, LOGIN is refused exactly when LOGINDISABLED is advertised (TLS on/off, local/remote peer, after STARTTLS), '
-       'and failed or credential-less attempts leave the connection unauthenticated; one and two consecutive attempts.',
-  note=TRUST + 'Stubs: password_prep = identity, hash = cleartext compare, secrets.compare_digest = equality, the SASL mechanism hands '
-       'arbitrary credentials to do_authenticate. Outside: saslprep, hashing, mechanism message parsing, maildir/redis user stores.',
+       'and failed or credential-less attempts leave the connection unauthenticated; one and two consecutive attempts, also on a new connection '
+       'to the same server. On the wire: AUTHENTICATE PLAIN on the real connection loop with the base64 of <= 4 (quick) / 5 (thorough) symbolic '
+       'bytes (plus the one-character-authzid shape at 5 bytes) through the instrumented pysasl PLAIN mechanism and the ASCII-exact SASLprep '
+       'model, followed by a LIST probe: authenticated and acting as exactly the identity RFC 4616 + the property allow for those bytes.',
+  note=TRUST + 'Stubs: hash = cleartext compare, secrets.compare_digest = equality; in the attempts harness password_prep = identity and '
+       'the SASL mechanism hands arbitrary credentials to do_authenticate. Outside: password hashing, the LOGIN SASL mechanism, ManageSieve '
+       '(ignores the authzid), maildir/redis user stores.',
   technique='symbolic execution of the real login code with z3 over symbolic users and credentials'),
  'C10': dict(
   text='Reference-model equivalence by bounded symbolic execution: programs of <= 2 (quick) / 3 (thorough) message commands '
